@@ -504,6 +504,7 @@ func corr(seed uint64, n int) {
 		cs = append(cs, stage2CorrCases(seed+11, round, m, n)...)
 		cs = append(cs, confRecCorrCases(seed+13, round, m/10, n/10)...)
 		cs = append(cs, hevcModelCorrCases(seed+17, round, m, n)...)
+		cs = append(cs, seiPayloadCases(seed+19, round, m/10, n/10)...)
 		r.batch(cs, func(i int, res result) {
 			c := cs[i]
 			if res.class == "skipped" {
@@ -579,6 +580,7 @@ func search(seed uint64, n int) {
 		cs = append(cs, seiCorrCases(seed+4, round, m/20, n/20)...)
 		cs = append(cs, stage2CorrCases(seed+5, round, m/20, n/20)...)
 		cs = append(cs, hevcModelCorrCases(seed+6, round, m/20, n/20)...)
+		cs = append(cs, seiPayloadCases(seed+8, round, m/40, n/40)...)
 		r.batch(cs, func(i int, res result) { check(cs[i], res) })
 	})
 	keys := make([]string, 0, len(fails))
